@@ -427,6 +427,12 @@ def mk_fn(name, *args):
         got = _ungather([xp, fp], lab_)
         if got is not None:
             args = (args[0], B(lab_, got[0]), B(lab_, got[1])) + tuple(args[3:])
+    if name == 'slice' and len(args) == 5 and args[0][0] == 'L' and args[1][0] == 'B' and args[4] == ('C', None) and args[0][1] != args[1][1] \
+            and (args[2] == ('C', None) or (args[2][0] == 'P' and Poly.from_key(args[2][1]).is_const() and Poly.from_key(args[2][1]).const_value() >= 0)):
+        # x[lo:hi] with a fixed non-negative start is the gather x[lo + i] over the new axis: pushed down to the leaves like every gather
+        new_, lab = args[0][1], args[1][1]
+        lo = Poly() if args[2] == ('C', None) else Poly.from_key(args[2][1])
+        return index_at(Poly.from_key(args[1][2]), lab, lo + Poly.atom(('sym', 'idx:' + str(new_), (new_,))))
     if name == 'compress' and len(args) == 3 and args[0][0] == 'L' and args[1][0] == 'B' and args[2][0] == 'B' and args[1][1] == args[2][1]:
         # the elements a mask selects are the elements at the positions where it holds: x[mask] == x[nonzero(mask)]
         lab = args[1][1]
